@@ -31,9 +31,10 @@ STUBS = [
     "objective: a callable passed through the public minimize= argument whose value per trial is a fresh solver variable in [1, 100], or raises BadTrial / RuntimeError (solver-chosen)",
     "SymPool passed through the public parallel= argument: submit() runs the task eagerly, the ORDER in which futures report done() is solver-chosen (any permutation of the dispatched futures)",
     "SymRng (grid) as the seed of the 'random' optlib; SymRng inside slicing / annealing options; log stubs as in C02",
+    "SymClock: with max_time set, `time` inside cotengra.hyperoptimizers.hyper is replaced by a clock whose successive readings are arbitrary non-decreasing solver variables (time.sleep is a no-op)",
 ]
 ASSUMPTIONS = ["score_compression=1.0 in (1) (a symbolic score cannot be raised to a fractional power); the tiny gaussian smudge ComputeScore adds is kept (concrete)", "concrete index sizes"]
-OUTSIDE = ["real process pools (pickling, OS scheduling)", "optlibs other than 'random'", "max_time based stopping (wall clock)"]
+OUTSIDE = ["real process pools (pickling, OS scheduling)", "optlibs other than 'random'"]
 
 NETS = [
     (("ab", "bc", "cd", "da"), "", {"a": 2, "b": 3, "c": 2, "d": 3}),
@@ -53,7 +54,7 @@ POST = [
 
 
 def bounds(tier):
-    return dict(selection=f"max_repeats in 1..{'3' if tier == 'quick' else '4'}, serial and SymPool (pre_dispatch forced to 2), every outcome kind per trial", true_costs="3 networks x 7 post-processing option sets x methods {greedy, random-greedy}, max_repeats=2")
+    return dict(selection=f"max_repeats in 1..{'3' if tier == 'quick' else '4'}, serial and SymPool (pre_dispatch forced to 2), every outcome kind per trial; max_time in {MAX_TIMES} with a symbolic clock (quick: a rotating subset)", true_costs="3 networks x 7 post-processing option sets x methods {greedy, random-greedy}, max_repeats=2")
 
 
 def items(tier, seed):
@@ -62,11 +63,63 @@ def items(tier, seed):
         for par in (False, True):
             for reps in ((1, 2, 3) if tier == "quick" else (1, 2, 3, 4)):
                 its.append({"part": "sel", "net": ni, "parallel": par, "reps": reps, "tier": tier})
+            for mt in MAX_TIMES[1:]:
+                if tier == "thorough" or (ni + len(str(mt))) % 2 == 0 or par:
+                    its.append({"part": "sel", "net": ni, "parallel": par, "reps": (3 if tier == "quick" else 4), "tier": tier, "max_time": mt})
     for ni in range(len(NETS)):
         for pi in range(len(POST)):
             for method in ("greedy", "random-greedy"):
                 its.append({"part": "cost", "net": ni, "post": pi, "method": method, "tier": tier})
     return its
+
+
+MAX_TIMES = [None, 10.0, "equil:1", "rate:100.0"]
+
+
+class SymClock:
+    """stands in for the `time` module inside hyper.py: arbitrary non-decreasing instants"""
+
+    def __init__(self):
+        self.reads = []
+
+    def time(self):
+        t = symx.sym_real(f"clock{len(self.reads)}", 0, 100000)
+        if self.reads:
+            symx.CTX.assume(term(t) >= term(self.reads[-1]))
+        self.reads.append(t)
+        return t
+
+    def sleep(self, s):
+        pass
+
+
+class ScriptedClock:
+    def __init__(self, values):
+        self.values, self.k = list(values), 0
+
+    def time(self):
+        v = self.values[self.k] if self.k < len(self.values) else (self.values[-1] if self.values else 0.0)
+        self.k += 1
+        return v
+
+    def sleep(self, s):
+        pass
+
+
+class clock_stub:
+    def __init__(self, clock):
+        self.clock = clock
+
+    def __enter__(self):
+        import importlib
+
+        self.H = importlib.import_module("cotengra.hyperoptimizers.hyper")
+        self.saved = self.H.time
+        if self.clock is not None:
+            self.H.time = self.clock
+
+    def __exit__(self, *exc):
+        self.H.time = self.saved
 
 
 class SymFuture:
@@ -93,18 +146,21 @@ class SymPool:
 
     _max_workers = 1
 
-    def __init__(self):
+    def __init__(self, objective=None):
         self.pending = []
         self.ready = None
         self.order = []
+        self.objective = objective
 
     def submit(self, fn, *args, **kwargs):
+        k0 = len(self.objective.trials) if self.objective is not None else None
         try:
             f = SymFuture(self, fn(*args, **kwargs), None)
         except (symx.PathAbort, symx.Unsupported, symx.Budget):
             raise
         except Exception as e:  # noqa
             f = SymFuture(self, None, e)
+        f.trial_index = k0
         self.pending.append(f)
         return f
 
@@ -145,35 +201,46 @@ def run_sel(item, rec):
 
     inputs, output, size = NETS[item["net"]]
     reps = item["reps"]
-    case0 = dict(part="sel", net=item["net"], parallel=item["parallel"], reps=reps)
+    case0 = dict(part="sel", net=item["net"], parallel=item["parallel"], reps=reps, max_time=item.get("max_time"))
 
     def harness(ctx):
         import random as _r
 
         _r.seed(777 + item["net"])
         obj = SymObjective()
-        pool = SymPool() if item["parallel"] else False
-        opt = HyperOptimizer(methods=["greedy"], minimize=obj, max_repeats=reps, parallel=pool, optlib="random", score_compression=1.0, on_trial_error="ignore", seed=3)
+        pool = SymPool(obj) if item["parallel"] else False
+        mt = item.get("max_time")
+        clock = SymClock() if mt is not None else None
+        opt = HyperOptimizer(methods=["greedy"], minimize=obj, max_repeats=reps, parallel=pool, optlib="random", score_compression=1.0, on_trial_error="ignore", seed=3, max_time=mt)
         if item["parallel"]:
             opt.pre_dispatch = 2
         err = None
-        try:
-            tree = opt.search(inputs, output, size)
-        except (symx.PathAbort, symx.Unsupported, symx.Budget):
-            raise
-        except KeyError:
-            tree = None  # every trial failed: there is no tree to return
-        except Exception as e:  # noqa
-            tree, err = None, repr(e)
-        oks = [(t, s) for (t, kind, s) in obj.trials if kind == "ok"]
+        with clock_stub(clock):
+            try:
+                tree = opt.search(inputs, output, size)
+            except (symx.PathAbort, symx.Unsupported, symx.Budget):
+                raise
+            except KeyError as e:
+                tree, err = None, e  # legitimate only if every trial failed: there is no tree to return
+            except Exception as e:  # noqa
+                tree, err = None, repr(e)
+        # the trials the search RAN = those whose result it collected: with early stopping on a pool, futures
+        # still in flight are cancelled / discarded by design and are not trials of this search
+        if item["parallel"]:
+            ran = [obj.trials[f.trial_index] for f in pool.pending if f.reported and f.trial_index is not None and f.trial_index < len(obj.trials)]
+        else:
+            ran = list(obj.trials)
+        if isinstance(err, KeyError):
+            err = repr(err) if any(kind == "ok" for _, kind, _ in ran) else None
+        oks = [(t, s) for (t, kind, s) in ran if kind == "ok"]
         bads = []
         conc = []
         if err is not None:
             conc.append(f"search raised {err}")
         if len(obj.trials) > reps or len(opt.scores) > reps:
             conc.append(f"{len(obj.trials)} trials run, max_repeats={reps}")
-        if len(opt.scores) != len(obj.trials):
-            conc.append(f"{len(opt.scores)} results recorded for {len(obj.trials)} trials")
+        if len(opt.scores) != len(ran):
+            conc.append(f"{len(opt.scores)} results recorded for {len(ran)} collected trials")
         if oks and tree is None and err is None:
             conc.append("no tree although a trial succeeded")
         if tree is not None:
@@ -205,8 +272,8 @@ def run_sel(item, rec):
         bad = z3.Or([z3.BoolVal(bool(conc))] + bads)
 
         def viol(m):
-            return dict(case=case0, outcomes=[k for _, k, _ in obj.trials], scores=[None if s is None else float(symx.eval_model(m, s)) for _, _, s in obj.trials],
-                        order=(pool.order if item["parallel"] else None), problems=conc[:3], signature=["C08sel", str(case0), str([k for _, k, _ in obj.trials]), str(conc[:1])])
+            return dict(case=case0, outcomes=[k for _, k, _ in obj.trials], collected=([f.trial_index for f in pool.pending if f.reported] if item["parallel"] else None), scores=[None if s is None else float(symx.eval_model(m, s)) for _, _, s in obj.trials],
+                        order=(pool.order if item["parallel"] else None), problems=conc[:3], clock=([float(symx.eval_model(m, t)) for t in clock.reads] if clock is not None else None), signature=["C08sel", str(case0), str([k for _, k, _ in obj.trials]), str(conc[:1])])
 
         rec.refute(ctx, bad, "best == min over trials, tree is that trial's tree, <= max_repeats trials", viol)
         return len(obj.trials)
@@ -304,16 +371,19 @@ class ScriptedObjective:
 class ScriptedPool:
     _max_workers = 1
 
-    def __init__(self, order):
+    def __init__(self, order, objective=None):
         self.order = list(order)
         self.pending = []
         self.ready = None
+        self.objective = objective
 
     def submit(self, fn, *a, **k):
+        k0 = self.objective.k if self.objective is not None else None
         try:
             f = SymFuture(self, fn(*a, **k), None)
         except Exception as e:  # noqa
             f = SymFuture(self, None, e)
+        f.trial_index = k0
         self.pending.append(f)
         return f
 
@@ -335,17 +405,23 @@ def replay(v):
     inputs, output, size = NETS[case["net"]]
     if case["part"] == "sel":
         obj = ScriptedObjective(v["outcomes"], v["scores"])
-        pool = ScriptedPool(v["order"] or []) if case["parallel"] else False
-        opt = HyperOptimizer(methods=["greedy"], minimize=obj, max_repeats=case["reps"], parallel=pool, optlib="random", score_compression=1.0, on_trial_error="ignore", seed=1)
+        pool = ScriptedPool(v["order"] or [], obj) if case["parallel"] else False
+        opt = HyperOptimizer(methods=["greedy"], minimize=obj, max_repeats=case["reps"], parallel=pool, optlib="random", score_compression=1.0, on_trial_error="ignore", seed=1, max_time=case.get("max_time"))
         if case["parallel"]:
             opt.pre_dispatch = 2
-        try:
-            tree = opt.search(inputs, output, size)
-        except KeyError:
-            tree = None
-        except Exception as e:  # noqa
-            return True, f"search raised {e!r}"
-        oks = [(t, s) for t, o, s in obj.trees if o == "ok"]
+        with clock_stub(ScriptedClock(v["clock"]) if v.get("clock") is not None else None):
+            try:
+                tree = opt.search(inputs, output, size)
+            except KeyError as e:
+                tree, kerr = None, e
+            except Exception as e:  # noqa
+                return True, f"search raised {e!r}"
+        ran = [obj.trees[f.trial_index] for f in pool.pending if f.reported and f.trial_index < len(obj.trees)] if case["parallel"] else list(obj.trees)
+        if tree is None and any(o == "ok" for _, o, _ in ran):
+            return True, f"search raised KeyError('tree') although a collected trial succeeded (max_time={case.get('max_time')}, clock readings {v.get('clock')})"
+        if len(opt.scores) != len(ran):
+            return True, f"{len(opt.scores)} results recorded for {len(ran)} collected trials"
+        oks = [(t, s) for t, o, s in ran if o == "ok"]
         if len(obj.trees) > case["reps"]:
             return True, f"{len(obj.trees)} trials run with max_repeats={case['reps']}"
         if oks and tree is None:
@@ -355,7 +431,7 @@ def replay(v):
             if len(mine) != 1:
                 return True, "returned tree is not the tree of a successful trial"
             if any(mine[0] > s + 1e-4 for _, s in oks):
-                return True, f"returned the trial with score {mine[0]} although a trial scored {min(s for _, s in oks)} (outcomes {v['outcomes']}, completion order {v['order']})"
+                return True, f"returned the trial with score {mine[0]} although a trial scored {min(s for _, s in oks)} (outcomes {v['outcomes']}, completion order {v['order']}, max_time={case.get('max_time')}, clock readings {v.get('clock')})"
             st = tree.contract_stats()
             if (opt.best.get("flops"), opt.best.get("write"), opt.best.get("size")) != (st["flops"], st["write"], st["size"]):
                 return True, "best trial's recorded costs differ from the returned tree"
